@@ -324,6 +324,73 @@ def run(ctx):
                       "property=C06 %s cadence: snapshot %s restored differs from the live simulation right after it was written in %s (snapshot next_step=%s next=%s, live next_step=%s next=%s)"
                       % (job["mode"], b0.get("snapshot"), b0.get("fields"), b0.get("snapshot_next_step"), b0.get("snapshot_next"), b0.get("live_next_step"), b0.get("live_next")))
 
+    # ---- cadence under histories mixing integrate(), manual step()/steps(k), detach / re-attach (all three cadences)
+    mjobs = []
+    for mode in ("step", "interval", "walltime"):
+        for rep in range(ctx.scale(4, 30)):
+            dt = rng.choice([0.01, 0.02, -0.015])
+            val = {"step": rng.randint(2, 12), "interval": abs(dt) * (rng.randint(2, 11) + 0.37), "walltime": 1e9}[mode]
+            ops = [["attach"]]
+            for _ in range(rng.randint(3, 7)):
+                u = rng.random()
+                if u < 0.45:
+                    ops.append(["integrate", rng.randint(1, 30)])
+                elif u < 0.75:
+                    ops.append(["manual", rng.randint(1, 25)])
+                else:
+                    ops += [["detach"], [rng.choice(["integrate", "manual"]), rng.randint(1, 25)], ["attach"]]
+            ops.append(["integrate", rng.randint(5, 30)])
+            mjobs.append({"kind": "automix", "spec": {"n": rng.choice([2, 3]), "integrator": rng.choice(["whfast", "leapfrog", "saba"]), "dt": dt, "t0": rng.choice([0.0, 1.0])},
+                          "mode": mode, "val": val, "ops": ops})
+    mres = run_jobs(libdir, [mjobs[i:i + 3] for i in range(0, len(mjobs), 3)], timeout=120)
+    mres = [x for b in mres for x in (b if isinstance(b, list) else [{"died": str(b)}] * 3)]
+    mterms_n = []; mterms_f = []; mbad = []
+    for job, r in zip(mjobs, mres):
+        ctx.case(key=("automix", job["mode"], job["val"], json.dumps(job["ops"])), nontrivial=any(o[0] == "manual" for o in job["ops"]),
+                 sample={"mixed_history": job, "segments": [s.get("snap_steps") for s in r.get("segs", [])]} if len(ctx.samples) < 6 else None)
+        if "segs" not in r or not r.get("in_step"):
+            if "died" in r:
+                mbad.append((job, "driver died: %s" % r["died"], None))
+            continue
+        for si, s in enumerate(r["segs"]):
+            # library-only oracle: the heartbeat rule "threshold <= current value => snapshot now, threshold += cadence"
+            if job["mode"] == "step":
+                nxt = s["next_step0"]; exp = []
+                for x in s["xs_steps"]:
+                    if nxt <= x:
+                        exp.append(x); nxt += job["val"]
+                got = s["snap_steps"]; fin_ok = (nxt == s["final_next_step"])
+                mterms_n.append("(fst (hb_seq hb_cmp_step %d %d %s) ++ [snd (hb_seq hb_cmp_step %d %d %s)], %s)"
+                                % (job["val"], s["next_step0"], L.nl(s["xs_steps"]), job["val"], s["next_step0"], L.nl(s["xs_steps"]), L.nl(s["snap_steps"] + [s["final_next_step"]])))
+            elif job["mode"] == "interval":
+                nxt = float.fromhex(s["next0"]); exp = []; sg = s["sign"]
+                for xh in s["xs_t"]:
+                    x = float.fromhex(xh)
+                    if sg * nxt <= sg * x:
+                        exp.append(xh); nxt += sg * job["val"]
+                got = s["snap_t"]; fin_ok = (nxt.hex() == s["final_next"])
+                fh = lambda h: vlib.fhex(float.fromhex(h))
+                mterms_f.append("(run_thrF %s %s %s [%s], [%s])" % (vlib.fhex(sg), vlib.fhex(job["val"]), fh(s["next0"]), "; ".join(fh(x) for x in s["xs_t"]),
+                                                                   "; ".join(fh(x) for x in s["snap_t"] + [s["final_next"]])))
+            else:
+                exp = s["xs_steps"][:1]; got = s["snap_steps"]; fin_ok = True
+            if exp != got or not fin_ok:
+                mbad.append((job, "segment %d (after attach #%d): snapshots written at %s, expected %s%s" % (si, si + 1, got[:12], exp[:12], "" if fin_ok else "; final threshold differs"), r))
+    if mbad:
+        job, what, r = min(mbad, key=lambda x: len(x[0]["ops"]))
+        ctx.violation("cadence-mixed-%s" % job["mode"], {"job": job, "observed": what, "how": "tools/c06_driver.py job_automix", "n_cases": len(mbad)}, True,
+                      "property=C06 %s cadence under a history mixing integrate(), manual steps and detach/re-attach: %s (history %s)" % (job["mode"], what, json.dumps(job["ops"])))
+    mbody = (L.PRELUDE + "From RV Require Import Gen.C06Heartbeat C06.Heartbeat.\nEval vm_compute in (bad_bytes [%s]).\n" % ";\n".join(mterms_n))
+    mok, mout = vlib.coq_eval("c06_automix_n", mbody)
+    mb = vlib.parse_coq_list_nat(mout) if mok else None
+    fbody0 = ("From Coq Require Import List PrimFloat.\nFrom RV Require Import Common.FloatNum C06.RunF.\nImport ListNotations.\nOpen Scope float_scope.\n"
+              "Eval vm_compute in (bad_cases [%s]).\n" % ";\n".join(mterms_f))
+    mok2, mout2 = vlib.coq_eval("c06_automix_f", fbody0)
+    mb2 = vlib.parse_coq_list_nat(mout2) if mok2 else None
+    ctx.obligation("correspondence:C06 heartbeat model (hb_seq / run_thr at FNum) == library on %d + %d attach segments of mixed histories (snapshots written and final threshold)"
+                   % (len(mterms_n), len(mterms_f)), len(mterms_n) >= 4 and len(mterms_f) >= 4 and mb == [] and mb2 == [],
+                   "step segments differing: %s; interval segments differing: %s %s" % (mb, mb2, (mout[-200:] if mb is None else "") + (mout2[-200:] if mb2 is None else "")))
+
     # ---- interval cadence, binary64: the Num-polymorphic heartbeat term at FNum vs the library, bit for bit
     fjobs = []
     for _ in range(ctx.scale(24, 200)):
